@@ -69,7 +69,9 @@ MANIFEST = {
     "technique": "Lean 4 proof (induction over the token list, the block-nesting budget and the context-depth budget) about a "
     "token-level model of the parse loops and the render loop + translator-generated inventory of every mode consultation + "
     "three-mode differential correspondence",
-    "text": "lax_never_raises, warn_reports_each and strict_ok_implies_same are proved for every token stream (malformed "
+    "text": "(deepened: the converse strict_fails_implies_lax_suppresses / _warn_warns on guard-free streams, the async loop "
+    "as its own function with async_run_equals_sync_run, case/when/with/tablerow/ifchanged parsers inside the model) "
+    "lax_never_raises, warn_reports_each and strict_ok_implies_same are proved for every token stream (malformed "
     "expressions, unknown tags, orphaned else/break/continue, unbalanced blocks), every state type and every mode-independent "
     "expression semantics, at every nesting depth; all_sites_benign is re-decided by the kernel against the inventory of mode "
     "consultations regenerated from the source on every run; the model is tied to the code by running exhaustive small token "
